@@ -18,6 +18,7 @@ import Mitx.Driver.Globals
 import Mitx.Driver.Answers
 import Mitx.Driver.Defaults
 import Mitx.Driver.MatrixShape
+import Mitx.Driver.MathConfig
 open Lean
 
 def dispatch (op : String) (j : Json) : Except String Json :=
@@ -32,6 +33,7 @@ def dispatch (op : String) (j : Json) : Except String Json :=
   | "np_hist" => Drv.npHist j
   | "defaults_hist" => Drv.defaultsHist j
   | "shape_validate" => Drv.shapeValidate j
+  | "math_config" => Drv.mathConfig j
   | "shape_ladder" => Drv.shapeLadder j
   | "string_clean" => Drv.stringClean j
   | "string_check" => Drv.stringCheck j
